@@ -10,6 +10,8 @@ import (
 
 	"verif/mc/h"
 
+	"github.com/couchbaselabs/rosmar"
+
 	"github.com/couchbaselabs/rosmar/vrt"
 )
 
@@ -19,6 +21,12 @@ func main() {
 		os.Exit(2)
 	}
 	vrt.UseVirtualClock(true)
+	if os.Getenv("VERIF_ROSMAR_LOG") != "" {
+		rosmar.SetLogLevel(rosmar.LevelTrace)
+		rosmar.LoggingCallback = func(level rosmar.LogLevel, f string, args ...any) {
+			fmt.Printf("      [t%d] "+f+"\n", append([]any{vrt.CurrentThreadID()}, args...)...)
+		}
+	}
 	switch os.Args[1] {
 	case "worker":
 		h.WorkerMain()
